@@ -127,58 +127,40 @@ theorem groupnorm_scale_expand_div {α} (k : Nat) (s : List α) (i : Nat) (hi : 
   have := (groupnorm_scale_expand k s).2 (i / k) (i % k) h1 h2
   rwa [Nat.div_add_mod' i k] at this
 
-/-- **`groupnormalization_20_21`, rewriting case.**  When every shape is static, `num_groups` divides the
-channel count, the step 20→21 preserves the node's meaning, `epsilon` included — every `epsilon` value,
-since 71fb858 — (the layout becomes per channel; the contents are related by `groupnorm_scale_expand`).
-`_partial`: the static-shape hypotheses are what D13a/b violate. -/
-theorem groupnorm_rewrite_partial (n : GN) (g : Nat) (hg : n.groups = some g)
-    (hin : n.hasX = true ∧ n.hasScale = true ∧ n.hasBias = true)
-    (hvis : n.xVis = .known ∧ n.sVis = .known ∧ n.bVis = .known)
-    (hlay : n.sLen = g ∧ n.bLen = g) (hdiv : g * (n.c / g) = n.c) :
-    Good Op.meaning (.groupNorm n) 20 := by
-  obtain ⟨hx, hs, hb⟩ := hin
-  obtain ⟨vx, vs, vb⟩ := hvis
-  obtain ⟨ls, lb⟩ := hlay
-  unfold Good
-  simp only [adapt, if_true, groupnormalization_20_21, hx, hs, hb, vx, vs, vb, hg]
-  by_cases hgc : g = n.c
-  · simp [hgc, ls, lb, Op.meaning, hg, hx, hs, hb] at *
-  · simp [hgc, ls, lb, gnReplacement, pmOps, Op.isAux, Op.meaning, hg, hx, hs, hb, hdiv]
-
-/-- **`groupnorm_none_cases`.**  For a node that *needs* the rewrite (per-group scale and bias,
-`num_groups ≠ C`), the adapter nevertheless returns `None` exactly when the channel dimension of `x` is
-symbolic, or the shape of scale or bias is missing or symbolic … -/
-theorem groupnorm_none_cases (n : GN) (g : Nat) (hg : n.groups = some g)
-    (hin : n.hasX = true ∧ n.hasScale = true ∧ n.hasBias = true)
-    (hneed : g ≠ n.c ∧ n.sLen = g ∧ n.bLen = g) :
-    groupnormalization_20_21 (.groupNorm n) = .retNone ↔
-      (n.xVis = .symbolic ∨ (n.xVis = .known ∧ (n.sVis ≠ .known ∨ n.bVis ≠ .known))) := by
-  obtain ⟨hx, hs, hb⟩ := hin
-  obtain ⟨h1, h2, h3⟩ := hneed
-  simp only [groupnormalization_20_21, hx, hs, hb, hg]
-  cases n.xVis <;> cases n.sVis <;> cases n.bVis <;> simp [h1, h2, h3]
-
-/-- … and in each of those cases the node is stamped 21 with opset-20 meaning: the step is not good
-(the result is not even a valid opset-21 form).  Witness replayed on the real code (finding D13b). -/
-theorem groupnorm_none_cases_refute_equivalence (n : GN) (g : Nat) (hg : n.groups = some g)
-    (hin : n.hasX = true ∧ n.hasScale = true ∧ n.hasBias = true)
-    (hneed : g ≠ n.c ∧ n.sLen = g ∧ n.bLen = g)
-    (hnone : groupnormalization_20_21 (.groupNorm n) = .retNone) :
-    ¬ Good Op.meaning (.groupNorm n) 20 ∧ Op.meaning (.groupNorm n) 21 = none := by
-  obtain ⟨hx, hs, hb⟩ := hin
-  obtain ⟨h1, h2, h3⟩ := hneed
-  have hm21 : Op.meaning (.groupNorm n) 21 = none := by
-    simp [Op.meaning, hg, hx, hs, hb, h2]; intro hh; exact absurd hh h1
-  refine ⟨?_, hm21⟩
-  unfold Good
-  simp only [adapt, if_true, hnone]
-  rw [hm21]
-  simp [Op.meaning, hg, hx, hs, hb, h2, h3]
-
 /-- `GroupNormalization(x:[N,4,…], s:[2], b:[2], num_groups=2)`, every shape static. -/
 def gnStatic : GN :=
   { hasX := true, hasScale := true, hasBias := true, groups := some 2, eps := none, c := 4, sLen := 2, bLen := 2,
     xVis := .known, sVis := .known, bVis := .known }
+
+/-- **`groupnormalization_20_21`, full statement (since 090a933).**  For *every* GroupNormalization that is a
+valid opset-20 form (inputs present, `num_groups` dividing the channel count, per-group scale and bias) —
+whatever its shape annotations show, whatever `epsilon` — the step 20→21 preserves the node's meaning: the
+static rewrite when every shape is known, the run-time-ratio rewrite (`Shape`/`Div`/`Concat`) when not,
+nothing when `num_groups = C`. -/
+theorem groupnorm_good (n : GN) (hvalid : (Op.meaning (.groupNorm n) 20).isSome) :
+    Good Op.meaning (.groupNorm n) 20 := good_gn n hvalid
+
+/-- **`groupnorm_none_cases` (since 090a933).**  The adapter returns `None` only when every shape is static and
+the static facts say that nothing is to be done; it raises only for an invalid node (a missing input or
+`num_groups`); otherwise it rewrites. -/
+theorem groupnorm_none_cases (n : GN) (g : Nat) (hg : n.groups = some g)
+    (hin : n.hasX = true ∧ n.hasScale = true ∧ n.hasBias = true) :
+    (groupnormalization_20_21 (.groupNorm n) = .retNone ↔
+      (n.xVis = .known ∧ n.sVis = .known ∧ n.bVis = .known ∧ ¬ (g ≠ n.c ∧ g = n.sLen ∧ g = n.bLen))) ∧
+    groupnormalization_20_21 (.groupNorm n) ≠ .raised := by
+  obtain ⟨hx, hs, hb⟩ := hin
+  simp only [groupnormalization_20_21, hx, hs, hb, hg]
+  cases n.xVis <;> cases n.sVis <;> cases n.bVis <;> simp <;> (try (split <;> simp_all)) <;> (try omega)
+
+/-- Before 090a933 (regression witnesses, replayed on the real code): with `x` lacking a shape the adapter raised —
+the error was caught and the node stayed in opset-20 form in a model declaring 21 (D13a); with a symbolic
+channel dimension it returned `None` although the rewrite was needed, and the stamped node is not a valid
+opset-21 form (D13b). -/
+theorem groupnorm_prefix_refuted :
+    groupnormalization_20_21_prefix (.groupNorm { gnStatic with xVis := .missing }) = .raised ∧
+    groupnormalization_20_21_prefix (.groupNorm { gnStatic with xVis := .symbolic }) = .retNone ∧
+    Op.meaning (.groupNorm { gnStatic with xVis := .symbolic }) 21 = none ∧
+    (Op.meaning (.groupNorm { gnStatic with xVis := .symbolic }) 20).isSome := by decide
 
 /-- **Epsilon preserved.**  Whatever `epsilon` attribute the node carries (or none), the rewritten
 GroupNormalization carries the same one.  Holds since 71fb858 (finding C10-GN-EPS, fixed). -/
@@ -201,8 +183,9 @@ theorem groupnorm_epsilon_prefix_refuted :
 self-consistent at `s` and no adapter raises on it (`SelfConsistent (fun _ _ => ()) s m`, see
 `good_unit_iff`).  Then for every target, every `fallback` value and every behaviour of the C API:
 either no exception escapes, the model declares `t` (and only under the `""` key), has no functions, and
-every default-domain node — subgraphs included — is written for `t`; or the model is exactly what it was. -/
-theorem convert_consistent_ir (s t : Nat) (fb : Fallback) (capi : CApi) (m0 m : Model)
+every default-domain node — subgraphs of every nesting depth `d` included — is written for `t`; or the model is
+exactly what it was. -/
+theorem convert_consistent_ir (s t : Nat) (fb : Fallback) {d : Nat} (capi : CApi (NodeD d)) (m0 m : Model (NodeD d))
     (hin : inlineModel m0 = .ok m) (h : SelfConsistent (fun _ _ => ()) s m) :
     ((convertVersionApi .ir fb t capi m0).2 = none ∧
       (convertVersionApi .ir fb t capi m0).1.declared = some t ∧
@@ -219,7 +202,7 @@ theorem convert_consistent_ir (s t : Nat) (fb : Fallback) (capi : CApi) (m0 m : 
 stale — finding D9, fixed).  Either an exception propagates or the conversion is refused and the caller's
 proto is exactly what it was (`eraseVersions m0`: a proto has no node versions; the refused/no-op case
 returns the inlined model `eraseVersions m`), or the proto now declares `t`. -/
-theorem convert_consistent_proto (s t : Nat) (fb : Fallback) (capi : CApi) (m0 m : Model)
+theorem convert_consistent_proto (s t : Nat) (fb : Fallback) {d : Nat} (capi : CApi (NodeD d)) (m0 m : Model (NodeD d))
     (hin : inlineModel (eraseVersions m0) = .ok m) (h : SelfConsistent (fun _ _ => ()) s m) :
     ((convertVersionApi .proto fb t capi m0).2 = none ∧
       (convertVersionApi .proto fb t capi m0).1.declared = some t ∧
@@ -242,12 +225,12 @@ theorem convert_consistent_proto (s t : Nat) (fb : Fallback) (capi : CApi) (m0 m
     | some e => exact Or.inr (Or.inl rfl)
     | none => exact Or.inr (Or.inr rfl)
 
-/-- **`convert_equivalent` (`_partial`: hypothesis `Good Op.meaning` on every step, i.e. outside the
-regions of the open findings D13a/b).**  Native path, `ir.Model` entry: after a
+/-- **`convert_equivalent`, general form** (hypothesis `Good Op.meaning` on every step; `convert_equivalent_ir`
+below discharges it from validity of the source).  Native path, `ir.Model` entry: after a
 successful conversion every non-auxiliary node, read at the opset it is now written for, means what the
 corresponding source node meant at `s` — in order, subgraphs included — and inputs and initializers are
 untouched; on the C-API path the model is the recovered C-API result (contract). -/
-theorem convert_equivalent_ir_partial (s t : Nat) (fb : Fallback) (capi : CApi) (m0 m : Model)
+theorem convert_equivalent_ir_of_good (s t : Nat) (fb : Fallback) {d : Nat} (capi : CApi (NodeD d)) (m0 m : Model (NodeD d))
     (hin : inlineModel m0 = .ok m) (h : SelfConsistent Op.meaning s m) :
     ((convertVersionApi .ir fb t capi m0).2 = none ∧
       (convertVersionApi .ir fb t capi m0).1.declared = some t ∧
@@ -262,50 +245,60 @@ theorem convert_equivalent_ir_partial (s t : Nat) (fb : Fallback) (capi : CApi) 
   · exact Or.inl ⟨a, b, e, f⟩
   · exact Or.inr hm
 
-/-- **`never_half_converted` (`_partial`: hypothesis `Good Op.meaning` on every step).**  A source whose
-nodes are all valid forms at `s` is either converted into valid forms at `t` only (every reading is `some`,
-the model declares `t`), or it is exactly what it was. -/
-theorem never_half_converted_partial (s t : Nat) (m : Model) (h : SelfConsistent Op.meaning s m)
-    (hvalid : ∀ x ∈ pmNodes Op.meaning s m.nodes, x.isSome) :
+/-- **`convert_equivalent`, full statement (since 090a933): no hypothesis on the adapters.**  For every *valid*
+self-consistent model at `s` (`ValidModel`: every node a valid operator form at the opset it is written for,
+no reference attributes, control-flow nodes own the subgraphs; any nesting depth), every target, `fallback`
+value and C-API behaviour: either the model is exactly what it was, or no exception escapes, it declares `t`,
+every default-domain node is written for `t`, and (native path) every non-auxiliary node reads at `t` as the
+corresponding source node read at `s`, inputs and initializers untouched. -/
+theorem convert_equivalent_ir (s t : Nat) (fb : Fallback) {d : Nat} (capi : CApi (NodeD d)) (m0 m : Model (NodeD d))
+    (hin : inlineModel m0 = .ok m) (h : ValidModel s m) :
+    ((convertVersionApi .ir fb t capi m0).2 = none ∧
+      (convertVersionApi .ir fb t capi m0).1.declared = some t ∧
+      AllAt t (convertVersionApi .ir fb t capi m0).1.nodes ∧
+      ((pmNodes Op.meaning t (convertVersionApi .ir fb t capi m0).1.nodes = pmNodes Op.meaning s m.nodes ∧
+        (convertVersionApi .ir fb t capi m0).1.inputs = m.inputs ∧
+        (convertVersionApi .ir fb t capi m0).1.inits = m.inits) ∨
+       (∃ ns, capi m t = some ns ∧ (convertVersionApi .ir fb t capi m0).1 = recoverFallback m t ns)))
+    ∨ (convertVersionApi .ir fb t capi m0).1 = m :=
+  convert_equivalent_ir_of_good s t fb capi m0 m hin h.selfConsistent
+
+/-- **`never_half_converted`, full statement (holds since 090a933).**  A valid model at `s` is either converted
+into valid forms at `t` only — every reading is `some`, the model declares `t`, every default-domain node at
+every nesting depth is written for `t` — or it is exactly what it was.  No hypothesis on the adapters. -/
+theorem never_half_converted (s t : Nat) {d : Nat} (m : Model (NodeD d)) (h : ValidModel s m) :
     ((nativeConvert t m).2 = none ∧ (nativeConvert t m).1.declared = some t ∧
+      AllAt t (nativeConvert t m).1.nodes ∧
+      pmNodes Op.meaning t (nativeConvert t m).1.nodes = pmNodes Op.meaning s m.nodes ∧
       ∀ x ∈ pmNodes Op.meaning t (nativeConvert t m).1.nodes, x.isSome)
     ∨ (nativeConvert t m).1 = m := by
-  rcases nativeConvert_spec Op.meaning meaning_mono s t m h with ⟨a, b, _, _, _, f, _, _⟩ | hm
-  · exact Or.inl ⟨a, b, fun x hx => hvalid x (by rw [← f]; exact hx)⟩
+  rcases nativeConvert_spec Op.meaning meaning_mono s t m h.selfConsistent with ⟨a, b, _, _, e, f, _, _⟩ | hm
+  · exact Or.inl ⟨a, b, e, f, fun x hx => h.readings_valid x (by rw [← f]; exact hx)⟩
   · exact Or.inr hm
 
 /-- The D13a witness: opset 20, `GroupNormalization(x, s:[2], b:[2], num_groups=2)` on 4 channels where `x`
 carries no shape annotation. -/
-def d13aModel : Model :=
+def d13aModel : Model (NodeD 0) :=
   { declared := some 20, aionnx := none, funcs := [], inputs := ["x"], inits := ["s", "b"],
     nodes := [{ leaf := { dflt := true, version := none, refAttr := false,
                           op := .groupNorm { gnStatic with xVis := .missing } },
                 bodies := [] }] }
 
-/-- **`never_half_converted`, full statement refuted.**  Without the hypothesis on the adapters the
-statement is false: the witness is a valid opset-20 model; the adapter raises, the error is caught, no
-exception escapes, the model now declares 21 — and its only node is still in opset-20 form (`version`
-unset, reading at 21 is `none`).  Replayed on the real code (finding D13a). -/
-theorem never_half_converted_refuted :
-    ¬ (∀ (s t : Nat) (m : Model), m.declared = some s → m.aionnx = none → m.funcs = [] →
-        (∀ n ∈ m.nodes, n.bodies = [] ∧ n.leaf.refAttr = false ∧ n.leaf.version = none) →
-        (∀ x ∈ pmNodes Op.meaning s m.nodes, x.isSome) →
-        ((nativeConvert t m).2 = none ∧ (nativeConvert t m).1.declared = some t ∧
-          ∀ x ∈ pmNodes Op.meaning t (nativeConvert t m).1.nodes, x.isSome)
-        ∨ (nativeConvert t m).1 = m) := by
-  intro h
-  have := h 20 21 d13aModel rfl rfl rfl (by decide) (by decide)
-  revert this
-  decide
-
-/-- What the refutation looks like: no error, declared 21, node untouched and unstamped. -/
-theorem d13a_outcome :
+/-- The witness that refuted `never_half_converted` before 090a933 is now converted: 17 nodes written for 21
+(the run-time-ratio rewrite), the GroupNormalization reads at 21 as the source read at 20. -/
+theorem d13a_fixed :
+    ValidModel 20 d13aModel ∧
     (nativeConvert 21 d13aModel).2 = none ∧ (nativeConvert 21 d13aModel).1.declared = some 21 ∧
-    (nativeConvert 21 d13aModel).1.nodes = d13aModel.nodes := by decide
+    (nativeConvert 21 d13aModel).1.nodes.length = 17 ∧
+    pmNodes Op.meaning 21 (nativeConvert 21 d13aModel).1.nodes = pmNodes Op.meaning 20 d13aModel.nodes := by
+  refine ⟨⟨rfl, rfl, rfl, ?_⟩, by decide⟩
+  intro n hn
+  rw [List.mem_singleton.mp hn]
+  exact ⟨⟨fun _ => rfl, fun _ => rfl, by decide⟩, fun h => absurd rfl h, by simp [d13aModel], by simp [d13aModel]⟩
 
 /-! ## Evaluation level (straight-line graphs) -/
 
-/-- **`convert_evalGraph` (`_partial`: per-step hypothesis `Good Op.meaning`, i.e. outside the open findings).**
+/-- **`convert_evalGraph`** (no hypothesis on the adapters since 090a933: validity of the source suffices).
 For *every* operator semantics `sem` — an uninterpreted function of (operator with attributes, opset version,
 inputs) — that satisfies the adapter laws `Laws sem` (hypotheses about the run time: GridSample is determined by
 its interpolation/align/padding, DFT-20 with a constant axis input = DFT-17 with that attribute,
@@ -314,15 +307,17 @@ operator form that reads the same at two opsets behaves the same), for every str
 `s` over the names `< b`, every environment (inputs and initializers) and every target: evaluating the converted
 graph — the rewrites *with their wiring*, `Constant`/`Reshape`/`Expand` interpreted from the ONNX specification —
 gives every name of the source graph the value the source graph gives it.  `AllTruthful`: shape facts of
-GroupNormalization nodes are true of the values they are evaluated on (A-shape). -/
-theorem convert_evalGraph_partial {D E : Type} (sem : OpSem D E) (hl : Laws sem) (s t : Nat) (ns : List ENode)
+GroupNormalization nodes are true of the values they are evaluated on (A-shape), and where the adapter must look
+at run-time shapes `x` is a tensor with `chan x = C` channels (`Laws.shape`: `Shape(x,1,2) = [chan x]`). -/
+theorem convert_evalGraph {D E : Type} (sem : OpSem D E) (chan : D → Nat) (hl : Laws sem chan) (s t : Nat) (ns : List ENode)
     (b f : Nat) (env : Env D E) (hbf : b ≤ f)
-    (hn : ∀ n ∈ ns, n.ver = s ∧ n.Below b ∧ (∀ v', s ≤ v' → Good Op.meaning n.op v') ∧ (n.op.meaning s).isSome)
-    (ht : AllTruthful sem env ns) :
+    (hn : ∀ n ∈ ns, n.ver = s ∧ n.Below b ∧ (n.op.meaning s).isSome)
+    (ht : AllTruthful sem chan env ns) :
     ∀ m, m < b → evalNodes sem env (convGraphE s t ns f).1 m = evalNodes sem env ns m := by
   intro m hm
-  have := mapFresh_eval sem hl b (t - s) s ns f env env hbf (agree_refl b env)
-    (fun n hn' => ⟨(hn n hn').1, (hn n hn').2.1, fun v' h1 _ => (hn n hn').2.2.1 v' h1, (hn n hn').2.2.2⟩) ht
+  have := mapFresh_eval sem chan hl b (t - s) s ns f env env hbf (agree_refl b env)
+    (fun n hn' => ⟨(hn n hn').1, (hn n hn').2.1, fun v' h1 _ => good_of_valid n.op s v' (hn n hn').2.2 h1,
+      (hn n hn').2.2⟩) ht
   exact (this m hm).symm
 
 /-- The graph-level conversion is the node-level model's conversion with wiring added: it leaves exactly the
@@ -349,14 +344,15 @@ theorem groupnorm_wiring_index {D E : Type} (sem : OpSem D E) (e : Env D E) (src
   ⟨expandScale k vs, (chain_eval sem e src cA cB cC o1 o2 o3 w k vs h1 hA hB hC d1 d2 d3).1,
     (groupnorm_scale_expand k vs).1, fun i hi => groupnorm_scale_expand_div k vs i hi⟩
 
-/-- The whole rewritten block of one GroupNormalization node (10 wired nodes) evaluates, on every name of the
+/-- The whole rewritten block of one GroupNormalization node (10 wired nodes for the static rewrite, 17 for the
+run-time-ratio rewrite with `Shape`/`Div`/`Concat` interpreted) evaluates, on every name of the
 source graph, to what the opset-20 node evaluated to. -/
-theorem groupnorm_rewrite_evalGraph {D E : Type} (sem : OpSem D E) (hl : Laws sem) (env : Env D E) (n : ENode)
+theorem groupnorm_rewrite_evalGraph {D E : Type} (sem : OpSem D E) (chan : D → Nat) (hl : Laws sem chan) (env : Env D E) (n : ENode)
     (f b : Nat) (gn : GN) (news : List Op) (hop : n.op = .groupNorm gn) (hA : adapt n.op 20 = .replaced news)
-    (hver : n.ver = 20) (hb : n.Below b) (hbf : b ≤ f) (ht : Truthful env n) :
+    (hver : n.ver = 20) (hb : n.Below b) (hbf : b ≤ f) (hvalid : (n.op.meaning 20).isSome) (ht : Truthful chan env n) :
     ∃ news' f', rewriteE n 20 f = some (news', f') ∧ news'.map (·.op) = news ∧
       ∀ m, m < b → evalNodes sem env news' m = evalNode sem env n m := by
-  obtain ⟨news', f', h1, _, h3, _, h5⟩ := rewrite_eval_gn sem hl env n 20 f b news gn hop hA hver hb hbf ht
+  obtain ⟨news', f', h1, _, h3, _, h5⟩ := rewrite_eval_gn sem chan hl env n 20 f b news gn hop hA hver hb hbf hvalid ht
   exact ⟨news', f', h1, h3, h5⟩
 
 /-! ## Signature and initializers -/
@@ -364,14 +360,14 @@ theorem groupnorm_rewrite_evalGraph {D E : Type} (sem : OpSem D E) (hl : Laws se
 /-- **`signature_kept`.**  On every path that converts (native, or C API followed by the input truncation
 `inputs[:len(model.graph.inputs)]`) the graph inputs are the original ones, in order — for every
 initializer list and whatever the C API returned. -/
-theorem signature_kept (m : Model) (t : Nat) (ns : List Node) :
+theorem signature_kept {α} [Inner α] (m : Model α) (t : Nat) (ns : List (Node α)) :
     (recoverFallback m t ns).inputs = m.inputs := by
   simp [recoverFallback, capiInputs]
 
 /-- **`initializers_kept`.**  The recovery loop after the C-API call registers exactly the original
 initializers (as a set of names): those that were graph inputs already and those that `call_onnx_api` had
 turned into extra inputs — none is lost, nothing else is registered. -/
-theorem initializers_kept (m : Model) (t : Nat) (ns : List Node) (x : String) :
+theorem initializers_kept {α} [Inner α] (m : Model α) (t : Nat) (ns : List (Node α)) (x : String) :
     x ∈ (recoverFallback m t ns).inits ↔ x ∈ m.inits := by
   simp only [recoverFallback, capiInputs, List.mem_filter, List.mem_append, List.contains_iff_mem,
     Bool.not_eq_true']
@@ -386,7 +382,7 @@ theorem initializers_kept (m : Model) (t : Nat) (ns : List Node) (x : String) :
 /-- **`functions_kept_or_inlined`.**  The pass inlines first: whenever the inline pass succeeds no
 function is left (their behaviour is preserved by the `InlinePass` contract, A-ir), and the default-domain
 import is held under the `""` key only. -/
-theorem functions_kept_or_inlined (m0 m : Model) (h : inlineModel m0 = .ok m) : m.funcs = [] ∧ m.aionnx = none := by
+theorem functions_kept_or_inlined {α} [Inner α] (m0 m : Model α) (h : inlineModel m0 = .ok m) : m.funcs = [] ∧ m.aionnx = none := by
   unfold inlineModel at h
   split at h
   · cases h
@@ -396,7 +392,7 @@ theorem functions_kept_or_inlined (m0 m : Model) (h : inlineModel m0 = .ok m) : 
 
 /-- A self-consistent opset-18 model satisfying every hypothesis of `convert_equivalent_ir_partial`:
 GridSample(bilinear) and an `If` whose branches hold DFT(axis=1) and GroupNormalization(num_groups=2, C=4). -/
-def demoModel : Model :=
+def demoModel : Model (NodeD 0) :=
   { declared := some 18, aionnx := none, funcs := [], inputs := ["x"], inits := ["s", "b"],
     nodes := [
       { leaf := { dflt := true, version := none, refAttr := false, op := .gridSample (some "bilinear") none none }, bodies := [] },
@@ -422,7 +418,7 @@ example : SelfConsistent Op.meaning 18 demoModel ∧ inlineModel demoModel = .ok
   have hgn : ∀ v', Good Op.meaning (.groupNorm gnStatic) v' := fun v' => by
     by_cases h : v' = 20
     · subst h
-      exact groupnorm_rewrite_partial gnStatic 2 rfl ⟨rfl, rfl, rfl⟩ ⟨rfl, rfl, rfl⟩ ⟨rfl, rfl⟩ (by decide)
+      exact good_gn gnStatic (by decide)
     · exact good_of_quiet _ (by simp [adapt, h])
   have hif : ∀ v', Good Op.meaning (.plain "If") v' := fun v' => good_of_quiet _ rfl
   refine ⟨⟨rfl, rfl, rfl, ?_⟩, rfl⟩
@@ -434,56 +430,81 @@ example : SelfConsistent Op.meaning 18 demoModel ∧ inlineModel demoModel = .ok
     intro b hb l hl
     simp only [List.mem_cons, List.mem_nil_iff, or_false] at hb
     rcases hb with rfl | rfl
-    · simp only [List.mem_cons, List.mem_nil_iff, or_false] at hl; subst hl
+    · rw [List.mem_singleton.mp hl]
       exact ⟨fun _ => rfl, fun _ => rfl, fun _ v' _ => hdft v'⟩
-    · simp only [List.mem_cons, List.mem_nil_iff, or_false] at hl; subst hl
+    · rw [List.mem_singleton.mp hl]
       exact ⟨fun _ => rfl, fun _ => rfl, fun _ v' _ => hgn v'⟩
 
-/-- The laws are satisfiable, and the wiring computes: with the (trivial) semantics that knows no operator,
-the block emitted for `GroupNormalization(num_groups=2)` on 4 channels turns the per-group scale `[10,20]`
-at name 1 into `[10,10,20,20]` at name `f+5` and the bias `[1,2]` at name 2 into `[1,1,2,2]` at `f+8`. -/
-example : Laws (fun (_ : Op) (_ : Nat) (_ : List (Option (Val Unit Nat))) => none) :=
-  ⟨fun _ _ _ _ _ => rfl, fun _ _ _ _ _ _ _ _ _ => rfl, fun _ _ _ _ _ _ _ => rfl,
-   fun _ _ _ _ _ _ _ _ _ _ _ _ _ _ _ _ _ => rfl⟩
+/-- A semantics that knows only `Shape` of an opaque tensor (4 channels). -/
+def demoSem : OpSem Unit Nat := fun op _ ins =>
+  match op, ins with
+  | .plain "Shape", [some (.data _)] => some (.ints [4])
+  | _, _ => none
 
-def demoEnv : Env Unit Nat := fun m => if m = 1 then some (.vec [10, 20]) else if m = 2 then some (.vec [1, 2]) else none
+/-- The laws are satisfiable … -/
+example : Laws demoSem (fun _ => 4) where
+  sameMeaning := by intros; rfl
+  shape := by intros; rfl
+  gridSample := by intros; rfl
+  dft := by intros; rfl
+  groupNorm := by intros; rfl
+
+def demoEnv : Env Unit Nat := fun m =>
+  if m = 0 then some (.data ()) else if m = 1 then some (.vec [10, 20]) else if m = 2 then some (.vec [1, 2]) else none
 
 def demoGNNode : ENode := { op := .groupNorm gnStatic, ver := 20, ins := [some 0, some 1, some 2], out := 3 }
+def demoGNNodeDyn : ENode :=
+  { op := .groupNorm { gnStatic with xVis := .symbolic }, ver := 20, ins := [some 0, some 1, some 2], out := 3 }
 
+/-- … and the wiring computes: the block emitted for `GroupNormalization(num_groups=2)` on 4 channels turns the
+per-group scale `[10,20]` at name 1 into `[10,10,20,20]` and the bias `[1,2]` at name 2 into `[1,1,2,2]` — by the
+static rewrite (names `f+5`, `f+8`) and by the run-time-ratio rewrite, which reads `C = 4` off `x` (names `f+9`, `f+15`). -/
 example :
-    (match rewriteE demoGNNode 20 4 with
-     | some (news, _) =>
-       (match evalNodes (fun _ _ _ => none) demoEnv news 9, evalNodes (fun _ _ _ => none) demoEnv news 12 with
-        | some (.vec a), some (.vec b) => a == [10, 10, 20, 20] && b == [1, 1, 2, 2]
-        | _, _ => false)
-     | none => false) = true := by decide
+    (match rewriteE demoGNNode 20 4, rewriteE demoGNNodeDyn 20 4 with
+     | some (news, _), some (dyn, _) =>
+       (match evalNodes demoSem demoEnv news 9, evalNodes demoSem demoEnv news 12,
+              evalNodes demoSem demoEnv dyn 13, evalNodes demoSem demoEnv dyn 19 with
+        | some (.vec a), some (.vec b), some (.vec a'), some (.vec b') =>
+          a == [10, 10, 20, 20] && b == [1, 1, 2, 2] && a' == [10, 10, 20, 20] && b' == [1, 1, 2, 2] && dyn.length == 17
+        | _, _, _, _ => false)
+     | _, _ => false) = true := by decide
 
-/-- The hypotheses of `convert_evalGraph_partial` hold for a concrete graph (GridSample(bilinear) then DFT(axis=1)
+/-- The hypotheses of `convert_evalGraph` hold for a concrete graph (GridSample(bilinear) then DFT(axis=1)
 written for opset 19), for every semantics and environment. -/
-example {D E : Type} (sem : OpSem D E) (env : Env D E) :
+example {D E : Type} (sem : OpSem D E) (chan : D → Nat) (env : Env D E) :
     let ns : List ENode := [{ op := .gridSample (some "bilinear") none none, ver := 19, ins := [some 0, some 1], out := 2 },
                             { op := .dft (some 1) none none false none 3, ver := 19, ins := [some 2], out := 3 }]
-    (∀ n ∈ ns, n.ver = 19 ∧ n.Below 4 ∧ (∀ v', 19 ≤ v' → Good Op.meaning n.op v') ∧ (n.op.meaning 19).isSome) ∧
-    AllTruthful sem env ns := by
+    (∀ n ∈ ns, n.ver = 19 ∧ n.Below 4 ∧ (n.op.meaning 19).isSome) ∧
+    AllTruthful sem chan env ns := by
   intro ns
   refine ⟨?_, ⟨trivial, ⟨by simp [Truthful], trivial⟩⟩⟩
   intro n hn
   simp only [ns, List.mem_cons, List.mem_nil_iff, or_false] at hn
   rcases hn with rfl | rfl
-  · refine ⟨rfl, ⟨by decide, by intro i hi m hm; simp at hi; rcases hi with rfl | rfl <;> (injection hm with hm; omega)⟩, ?_, by decide⟩
-    intro v' _
-    by_cases h : v' = 19
-    · subst h; exact gridsample_mode_rename _ _ _ (by decide)
-    · exact good_of_quiet _ (by simp [adapt, h])
-  · refine ⟨rfl, ⟨by decide, by intro i hi m hm; simp at hi; subst hi; injection hm with hm; omega⟩, ?_, by decide⟩
-    intro v' _
-    by_cases h : v' = 19
-    · subst h; exact (dft_axis_attr_eq_input 1 none none false 3).2
-    · exact good_of_quiet _ (by simp [adapt, h])
+  · exact ⟨rfl, ⟨by decide, by intro i hi m hm; simp at hi; rcases hi with rfl | rfl <;> (injection hm with hm; omega)⟩, by decide⟩
+  · exact ⟨rfl, ⟨by decide, by intro i hi m hm; simp at hi; subst hi; injection hm with hm; omega⟩, by decide⟩
 
 /-- Instances of the adapter laws' hypotheses. -/
 example : (Op.meaning (.gridSample (some "bicubic") (some 1) none) 19).isSome := by decide
-example : groupnormalization_20_21 (.groupNorm { gnStatic with xVis := .symbolic }) = .retNone := by decide
+example : groupnormalization_20_21 (.groupNorm { gnStatic with xVis := .symbolic })
+    = .replaced (gnDynReplacement { gnStatic with xVis := .symbolic }) := by decide
+
+/-- Nesting depth 2: `If { If { GridSample(bilinear) ; DFT(axis=1) } }` at opset 18.  The converter recurses
+(`visit_attribute → visit_graph_or_function`), so does the model: the innermost nodes are rewritten and stamped. -/
+def demoDeep : Model (NodeD 1) :=
+  { declared := some 18, aionnx := none, funcs := [], inputs := ["x"], inits := [],
+    nodes := [
+      { leaf := { dflt := true, version := none, refAttr := false, op := .plain "If" },
+        bodies := [[
+          ({ leaf := { dflt := true, version := none, refAttr := false, op := .plain "If" },
+             bodies := [[({ dflt := true, version := none, refAttr := false, op := .gridSample (some "bilinear") none none } : Leaf),
+                         ({ dflt := true, version := none, refAttr := false, op := .dft (some 1) none none false none 3 } : Leaf)]] }
+            : Node Leaf)]] }] }
+
+example : (nativeConvert 21 demoDeep).2 = none ∧ (nativeConvert 21 demoDeep).1.declared = some 21 ∧
+    pmNodes Op.meaning 21 (nativeConvert 21 demoDeep).1.nodes = pmNodes Op.meaning 18 demoDeep.nodes ∧
+    ((nativeConvert 21 demoDeep).1.nodes.flatMap Node.leaves).length = 5 ∧
+    ∀ l ∈ (nativeConvert 21 demoDeep).1.nodes.flatMap Node.leaves, l.version = some 21 := by decide
 
 example : (expandScale 2 [10, 20, 30] : List Nat) = [10, 10, 20, 20, 30, 30] := by decide
 
